@@ -263,6 +263,7 @@ package index
 //@   requires {C04} [bitmap created here] ownfresh(newSegmentDeleted)
 //@   modifies mapof(s.old), bmHas, itRem
 //@   requires {C06} s != nil && segSnapNow != nil && newSegmentDeleted != nil
+//@   ensures {C06} [the-merge-record-only-shrinks] forall e uint64 :: has(s.old, e) ==> (old(has(s.old, e)) && s.old[e] == old(s.old[e]))
 //@   ensures {C06} [going-away-iff-it-was-merged] result <==> old(has(s.old, segmentID))
 //@   ensures {C06} [nothing-already-carried-is-lost] forall v uint32 :: old(bmHas)[newSegmentDeleted][v] ==> bmHas[newSegmentDeleted][v]
 //@   ensures {C06} [deletes-since-the-merge-started-are-carried-over] (old(has(s.old, segmentID)) && old(s.old[segmentID]) != nil && segSnapNow.deleted != nil && newSegmentDeleted != segSnapNow.deleted && newSegmentDeleted != old(s.old[segmentID].deleted)) ==> (forall d uint32 :: (bmHas[segSnapNow.deleted][d] && (old(s.old[segmentID].deleted) == nil || !bmHas[old(s.old[segmentID].deleted)][d])) ==> bmHas[newSegmentDeleted][uint32(s.oldNewDocNums[segmentID][d])])
@@ -504,16 +505,32 @@ package index
 // ---------------------------------------------------------------------------
 //@ func Writer.introduceMerge(nextMerge, introduceSnapshotEpoch)
 //@   props C06 C05
+//@   requires [merged-segments-are-recorded-with-their-snapshot] forall e uint64 :: has(nextMerge.old, e) ==> (nextMerge.old[e] != nil && allocated(nextMerge.old[e]) && nextMerge.old[e].segment != nil && allocated(nextMerge.old[e].deleted) && allocated(base(nextMerge.oldNewDocNums[e])))
 //@   effect {C05} lastEpochHanded == introduceSnapshotEpoch
 //@   heap_wf
 //@   requires s != nil && nextMerge != nil
 //@   modifies *
+//@   at call StoreUint64: assert [segments-that-vanished-from-the-root-are-obsoleted-entirely-0] forall e uint64, d uint32 :: (has(nextMerge.old, e) && nextMerge.old[e] != nil && nextMerge.old[e].deleted != newSegmentDeleted && (uint64(d) < segCount(iref(nextMerge.old[e].segment.Segment)) && !(nextMerge.old[e].deleted != nil && bmHas[nextMerge.old[e].deleted][d]))) ==> bmHas[newSegmentDeleted][uint32(nextMerge.oldNewDocNums[e][d])]
+//@   at call replaceRoot: assert [segments-that-vanished-from-the-root-are-obsoleted-entirely] forall e uint64, d uint32 :: (has(nextMerge.old, e) && nextMerge.old[e] != nil && nextMerge.old[e].deleted != newSegmentDeleted && (uint64(d) < segCount(iref(nextMerge.old[e].segment.Segment)) && !(nextMerge.old[e].deleted != nil && bmHas[nextMerge.old[e].deleted][d]))) ==> bmHas[newSegmentDeleted][uint32(nextMerge.oldNewDocNums[e][d])]
 //@   at call replaceRoot: assert [merged-segment-gets-the-collected-deletes] skipped || (len(newSnapshot.segment) > 0 && newSnapshot.segment[len(newSnapshot.segment) - 1].deleted == newSegmentDeleted && newSnapshot.segment[len(newSnapshot.segment) - 1].segment == nextMerge.new && newSnapshot.segment[len(newSnapshot.segment) - 1].id == nextMerge.id)
 //@   at call AddRef: assert [a-merged-segment-does-not-stay-beside-its-merge] !segmentIsGoingAway
 //@   at call AddRef: assert [a-segment-that-stays-is-taken-over-unchanged] len(newSnapshot.segment) > 0 && newSnapshot.segment[len(newSnapshot.segment) - 1] != nil && newSnapshot.segment[len(newSnapshot.segment) - 1].id == root.segment[i].id && newSnapshot.segment[len(newSnapshot.segment) - 1].segment == root.segment[i].segment && newSnapshot.segment[len(newSnapshot.segment) - 1].deleted == root.segment[i].deleted
 //@   at call replaceRoot: assert [new-root-carries-the-new-epoch] newSnapshot.epoch == introduceSnapshotEpoch
+//@   loop 2
+//@     invariant fresh(newSegmentDeleted) && newSegmentDeleted != nil && nextMerge != nil
+//@     invariant [the-new-offsets-table-is-private] newSnapshot != nil && fresh(newSnapshot) && ((cap(newSnapshot.offsets) == 0 && isnil(base(newSnapshot.offsets))) || fresh(base(newSnapshot.offsets)))
+//@     invariant [merged-segments-are-recorded-with-their-snapshot] forall e uint64 :: has(nextMerge.old, e) ==> (nextMerge.old[e] != nil && !fresh(nextMerge.old[e]) && nextMerge.old[e].segment != nil && !fresh(nextMerge.old[e].deleted) && !fresh(base(nextMerge.oldNewDocNums[e])))
+//@     invariant [visited-vanished-segments-are-obsoleted] forall e uint64, d uint32 :: (visited(e) && has(nextMerge.old, e) && nextMerge.old[e] != nil && nextMerge.old[e].deleted != newSegmentDeleted && (uint64(d) < segCount(iref(nextMerge.old[e].segment.Segment)) && !(nextMerge.old[e].deleted != nil && bmHas[nextMerge.old[e].deleted][d]))) ==> bmHas[newSegmentDeleted][uint32(nextMerge.oldNewDocNums[e][d])]
+//@   loop 3
+//@     invariant fresh(newSegmentDeleted) && newSegmentDeleted != nil && nextMerge != nil && obsoleted != nil && obsoleted != newSegmentDeleted && ss != nil && ss == nextMerge.old[segID] && has(nextMerge.old, segID) && ss.deleted != newSegmentDeleted && ss.deleted != obsoleted
+//@     invariant forall d uint32 :: bmHas[obsoleted][d] == (uint64(d) < segCount(iref(ss.segment.Segment)) && !(ss.deleted != nil && bmHas[ss.deleted][d]))
+//@     invariant forall d uint32 :: itRem[iref(obsoletedIter)][d] ==> bmHas[obsoleted][d]
+//@     invariant [handed-out-so-far-are-obsoleted] forall d uint32 :: (bmHas[obsoleted][d] && !itRem[iref(obsoletedIter)][d]) ==> bmHas[newSegmentDeleted][uint32(nextMerge.oldNewDocNums[segID][d])]
+//@     invariant [visited-vanished-segments-are-obsoleted] forall e uint64, d uint32 :: (visited(e) && e != segID && has(nextMerge.old, e) && nextMerge.old[e] != nil && nextMerge.old[e].deleted != newSegmentDeleted && (uint64(d) < segCount(iref(nextMerge.old[e].segment.Segment)) && !(nextMerge.old[e].deleted != nil && bmHas[nextMerge.old[e].deleted][d]))) ==> bmHas[newSegmentDeleted][uint32(nextMerge.oldNewDocNums[e][d])]
 //@   loop 1
 //@     invariant fresh(newSegmentDeleted) && newSegmentDeleted != nil && root != nil && rangeindex < len(root.segment)
+//@     invariant [the-new-offsets-table-is-private] newSnapshot != nil && fresh(newSnapshot) && ((cap(newSnapshot.offsets) == 0 && isnil(base(newSnapshot.offsets))) || fresh(base(newSnapshot.offsets)))
+//@     invariant [merged-segments-are-recorded-with-their-snapshot] forall e uint64 :: has(nextMerge.old, e) ==> (nextMerge.old[e] != nil && !fresh(nextMerge.old[e]) && nextMerge.old[e].segment != nil && !fresh(nextMerge.old[e].deleted) && !fresh(base(nextMerge.oldNewDocNums[e])))
 //@     invariant forall k int :: (0 <= k && k < len(root.segment)) ==> root.segment[k] != nil
 
 // swapping in persisted copies: same segments (by id), same deletes, same offsets, position by position
@@ -545,7 +562,7 @@ package index
 //@ spec fn segCount(seg ref) uint64
 //@ func github.com/blugelabs/bluge_segment_api.Segment.Count(recv) (c)
 //@   interface
-//@   props C01
+//@   props C01 C06
 //@   pure
 //@   ensures c == segCount(iref(recv))
 
@@ -576,6 +593,7 @@ package index
 //@   modifies *
 //@   at call introduceSegment: assume next != nil && (forall k uint64 :: has(next.obsoletes, k) ==> next.obsoletes[k] != nil)
 //@   at call introduceMerge: assume nextMerge != nil
+//@   at call introduceMerge: assume [what-the-merger-sends-records-each-merged-segment-with-its-snapshot] forall e uint64 :: has(nextMerge.old, e) ==> (nextMerge.old[e] != nil && allocated(nextMerge.old[e]) && nextMerge.old[e].segment != nil && allocated(nextMerge.old[e].deleted) && allocated(base(nextMerge.oldNewDocNums[e])))
 //@   at call introducePersist: assume persist != nil
 //@   at call AddUint64: assume [the-epoch-counter-does-not-wrap-around] nextSnapshotEpoch < 18446744073709551615
 //@   at call introduceSegment: assert [epochs-strictly-increase] introduceSnapshotEpoch > lastEpochHanded
@@ -603,3 +621,12 @@ package index
 //@   requires i != nil
 //@   modifies *
 //@   effect refsHeld == old(refsHeld) - 1
+
+// the live documents of a segment snapshot: every number below the segment's count that is not deleted
+//@ func segmentSnapshot.DocNumbersLive() (rv)
+//@   props C06
+//@   requires s != nil && s.segment != nil
+//@   modifies bmHas
+//@   ensures rv != nil && fresh(rv)
+//@   ensures [live-is-all-minus-deleted] forall v uint32 :: bmHas[rv][v] == (uint64(v) < segCount(iref(s.segment.Segment)) && !(s.deleted != nil && bmHas[s.deleted][v]))
+//@   ensures [other-bitmaps-untouched] forall b ref, v uint32 :: b != rv ==> bmHas[b][v] == old(bmHas)[b][v]
